@@ -12,5 +12,8 @@ CONSTANTS
   NumpyOps <- None_
   ReaderPerBlock = FALSE
   OverwriteTags <- None_
+  StickyKwargs = FALSE
+  LazySetitemLost = FALSE
+  SharedHandle = FALSE
 INVARIANT EmitLeaf
 CHECK_DEADLOCK FALSE
